@@ -1165,6 +1165,16 @@ class Mut:
         t['bases'].remove(self.rnd.choice(t['bases']))
         return 'drop-base'
 
+    def drop_adjacent_bases(self, s, feat):
+        """`extending X, Y, A, B` -> `extending X, B`: two ADJACENT bases dropped in one step"""
+        ts = [t for t in s.types() if len(t['bases']) >= 3]
+        if not ts:
+            return None
+        t = self.rnd.choice(ts)
+        i = self.rnd.randrange(0, len(t['bases']) - 1)
+        del t['bases'][i:i + 2]
+        return 'drop-two-adjacent-bases'
+
     def reorder_bases(self, s, feat):
         ts = [t for t in s.types() if len(t['bases']) >= 2]
         if not ts:
@@ -1474,7 +1484,7 @@ class Mut:
            ('toggle_card', 5), ('toggle_required', 5), ('retarget', 5), ('add_ptr', 8), ('drop_ptr', 6),
            ('move_ptr_to_parent', 4), ('move_ptr_to_child', 2), ('add_overload', 3), ('toggle_lprop', 4),
            ('computed_stored', 4), ('change_computed', 2), ('toggle_abstract', 4), ('add_base', 4),
-           ('drop_base', 4), ('reorder_bases', 3), ('insert_two_bases', 2), ('rename_abstract_and_concrete', 2),
+           ('drop_base', 4), ('reorder_bases', 3), ('drop_adjacent_bases', 2), ('insert_two_bases', 2), ('rename_abstract_and_concrete', 2),
            ('drop_from_one_base', 2), ('drop_overloaded_attr', 2), ('add_type', 5), ('drop_type', 5), ('add_misc', 4), ('drop_misc', 3),
            ('change_misc', 4), ('toggle_decoration', 14), ('toggle_module', 2)]
 
@@ -1585,6 +1595,8 @@ def enrich(g: Gen, s: Schema, feat):
     op['ptrs'].append(P('trk_', ('std', 'str'), extending=ap['uid']))
     oc = T('OC', bases=[op['uid']])
     oc['ptrs'].append(P('xdef_', ('std', 'int64'), default=['5']))
+    q = [T('QA'), T('QB'), T('QC'), T('QD')]
+    T('QE', bases=[x['uid'] for x in q])
     feat |= {'ptr:overloaded', 'ptr:extending-abstract', 'inheritance:multiple', 'link:abstract-def', 'property:abstract-def'}
     return s
 
@@ -1926,6 +1938,17 @@ PROPOSED = {
                 'delta that prints no DDL',
         'replay': 'A: module default { abstract type Tag { multi link tags -> default::Tag; }; type Card extending default::Tag; } '
                   'B: the same with `multi link tags -> default::Tag { on target delete restrict; }`'},
+    'C02-drop-adjacent-bases': {
+        'property': 'C02',
+        'site': 'edb/schema/inheriting.py::_compute_new_bases (removes from the base list while iterating over it), via '
+                'RebaseInheritingObject for `DROP EXTENDING a, b`',
+        'predicate': 'two bases that are ADJACENT in the old base list of a type are dropped in the same migration '
+                     '(`extending X, Y, A, B` -> `extending X, B`)',
+        'what': 'the script `ALTER TYPE C DROP EXTENDING A, Y;` is accepted but only one of the two bases is removed; '
+                'delta_schemas(result, target) = `alter type C drop extending A` (the next migration removes it: the '
+                'stepwise schema differs from the directly migrated one for one step)',
+        'replay': 'A: module default { type X; type Y; type A; type B; type C extending default::X, default::Y, default::A, default::B; } '
+                  'B: the same with `type C extending default::X, default::B`'},
     'C02-reorder-bases': {
         'property': 'C02',
         'site': 'edb/schema/inheriting.py::RebaseInheritingObject / _compute_new_bases (a base that is already present is '
@@ -2003,6 +2026,17 @@ def _base_lists(text):
             for m in re.finditer(r'type (\w+) extending ([\w:, ]+?)\s*[{;]', text)}
 
 
+def adjacent_bases_dropped(a_text, b_text):
+    """some type loses two bases that were adjacent in its old base list"""
+    a, b = _base_lists(a_text), _base_lists(b_text)
+    for n, old in a.items():
+        new = b.get(n, [])
+        gone = [x not in new for x in old]
+        if any(gone[i] and gone[i + 1] for i in range(len(old) - 1)):
+            return True
+    return False
+
+
 def same_bases_reordered(a_text, b_text):
     """some type has the same SET of bases in A and B but in a different order"""
     a, b = _base_lists(a_text), _base_lists(b_text)
@@ -2042,6 +2076,10 @@ def classify_monitor(form, cmpres, mon, a_text, b_text, script):
         i = up.find('DROP OWNED')
         if i >= 0 and up.find('RESET TYPE', i) > i:
             return 'C02-move-to-parent-reowned'
+    if form in ('commit', 'text') and items and all(f in ('bases', 'ancestors') for _, f in items) \
+            and (form == 'text' or 'drop extending' in (cmpres.get('own_diff') or '').lower()) \
+            and adjacent_bases_dropped(a_text, b_text):
+        return 'C02-drop-adjacent-bases'
     if form in ('commit', 'text') and 'drop extending' in (cmpres.get('own_diff') or '').lower() \
             and script and 'DROP EXTENDING' in script.upper() and 'RENAME TO' in script.upper():
         import re
@@ -2169,3 +2207,96 @@ def gen_abstract(rnd, maxn=7):
     B = [(n, clsA[back[n]] if n in back else c, d, r) for n, c, d, r in B]
     enc = lambda S: ';'.join(f'{n}:{c}:{d}:' + ','.join(map(str, r)) for n, c, d, r in S)
     return 'P|' + enc(A) + '|' + enc(B) + '|' + ','.join(f'{y}:{x}' for y, x in m)
+
+
+# ------------------------------------------------------------------ forced chain sweep (C10)
+# Hand-shaped histories (names / variants randomised) for the classes that random chains rarely
+# reach: object lifecycles over >= 3 steps, re-parenting at two positions, renames of scalars used
+# inside collection types, dropping adjacent bases, rename + drop-as-base.
+
+def gen_chain_sweep(rnd):
+    """-> [(texts, meta)]; every family appears once per call"""
+    def pick(pool):
+        return rnd.choice(pool)
+    out = []
+    wrap = lambda body: 'module default {\n' + body + '\n}'
+
+    # (1) alias / computed-global lifecycles
+    for kind in ('alias', 'global'):
+        T = pick(['Item', 'Doc', 'Note', 'Card']) + str(rnd.randrange(10, 99))
+        V = pick(['View', 'Top', 'Cur', 'Sel']) + str(rnd.randrange(10, 99))
+        decl = (lambda e: f'    alias {V} := ({e});') if kind == 'alias' else (lambda e: f'    global {V} := ({e});')
+        lim = '' if kind == 'alias' else ' limit 1'
+        tdef = f'    type {T} {{ property p -> str; property q -> int64; multi link l -> {T}; }};'
+        exprs = {
+            'plain': f'select {T}{lim}',
+            'shape': f'select {T} {{ p }}{lim}',
+            'shape_tuple': f'select {T} {{ p, b := (.p, .q) }}{lim}',
+            'shape_link': f'select {T} {{ p, l: {{ q }} }}{lim}',
+            'tuple': f'select (select {T}{lim}) {{ t := (.q, .p) }}',
+            'named_tuple': f'select {T} {{ nt := (a := .p, b := [.q]) }}{lim}',
+            'scalar': f'(select {T}{lim}).p',
+            'array': f'array_agg({T}.p)',
+            'tuple_expr': f'(count({T}), array_agg({T}.q))',
+        }
+        e1 = pick(['shape', 'plain', 'shape_link'])
+        e2 = pick(['shape_tuple', 'named_tuple', 'tuple', 'tuple_expr'])
+        e3 = pick([None, 'array', 'scalar', 'shape', 'tuple_expr'])
+        touch = pick([f'    type {T} {{ property p -> str; multi link l -> {T}; }};',
+                      f'    type {T} {{ property p -> str; property q -> int64; property r -> bool; multi link l -> {T}; }};',
+                      f'    type {T}x {{ property p -> str; property q -> int64; multi link l -> {T}x; }};'])
+        s1 = wrap(tdef + '\n' + decl(exprs[e1]))
+        s2 = wrap(tdef + '\n' + decl(exprs[e2]))
+        s3 = wrap(tdef + ('\n' + decl(exprs[e3]) if e3 else ''))
+        s4 = wrap(touch)          # the alias/global (if still there) goes away while its source type is touched
+        out.append(([s1, s2, s3, s4], {'family': f'{kind}-lifecycle', 'variant': [e1, e2, e3],
+                                       'ops': [['sweep:' + kind + '-lifecycle']] * 4, 'feat': [kind, 'lifecycle'], 'len': 4}))
+
+    # (2) re-parenting at two positions, inherited defaults differ between the bases
+    A, B, X, Y, C = [n + str(rnd.randrange(10, 99)) for n in ('A', 'B', 'X', 'Y', 'C')]
+    dv = rnd.sample(['1', '2', '3', '4', '5', '6'], 4)
+    base = '\n'.join(f'    type {n} {{ property d -> int64 {{ default := ({v}); }}; property o{n} -> str; }};'
+                     for n, v in zip((A, B, X, Y), dv))
+    s1 = wrap(base + f'\n    type {C} extending {A}, {B};')
+    s2 = wrap(base + f'\n    type {C} extending {X}, {A}, {Y}, {B};')
+    s3 = wrap(base + f'\n    type {C} extending {X}, {A}, {Y}, {B} {{ property own -> str; }};')
+    s4 = wrap(base + f'\n    type {C} extending {A}, {B} {{ property own -> str; }};')
+    out.append(([s1, s2, s3, s4], {'family': 'reparent-two-positions', 'ops': [['sweep:reparent-two-positions']] * 4,
+                                   'feat': ['inheritance:multiple', 'default:inherited'], 'len': 4}))
+
+    # (3) renamed scalars / enums used inside collection types + a structurally similar new property
+    S, E = 'Sku' + str(rnd.randrange(10, 99)), 'Col' + str(rnd.randrange(10, 99))
+    S2, E2 = S + 'r', E + 'r'
+    def coll(sn, en, extra=False):
+        ps = [f'property a -> tuple<a: {sn}, b: int64>;', f'property c -> array<{sn}>;',
+              f'property d -> tuple<{sn}, int64>;', f'property n -> tuple<x: tuple<{sn}, {en}>, y: array<{en}>>;']
+        if extra:
+            ps += [f'property e -> tuple<{sn}, int64>;', f'property f -> tuple<a: {sn}, b: int64>;',
+                   f'property g -> array<tuple<{sn}, {en}>>;']
+        return '\n'.join('        ' + p for p in ps)
+    sc = lambda sn, en: f'    scalar type {sn} extending str;\n    scalar type {en} extending enum<R, G, B>;'
+    ren_e = rnd.random() < 0.6
+    e_new = E2 if ren_e else E
+    s1 = wrap(sc(S, E) + f'\n    type T {{\n{coll(S, E)}\n    }};')
+    s2 = wrap(sc(S2, e_new) + f'\n    type T {{\n{coll(S2, e_new, True)}\n    }};')
+    s3 = wrap(sc(S2, e_new) + f'\n    type T {{\n        property e -> tuple<{S2}, int64>;\n        property g -> array<tuple<{S2}, {e_new}>>;\n    }};')
+    s4 = wrap(sc(S2, e_new) + '\n    type T;')
+    out.append(([s1, s2, s3, s4], {'family': 'scalar-in-collections-rename', 'ops': [['sweep:scalar-in-collections-rename']] * 4,
+                                   'feat': ['type:tuple', 'type:array', 'scalar:enum', 'scalar:custom'], 'len': 4}))
+
+    # (4) dropping adjacent bases; rename + drop-as-base
+    names = [n + str(rnd.randrange(10, 99)) for n in ('P', 'Q', 'R', 'S')]
+    tl = '\n'.join(f'    type {n};' for n in names)
+    s1 = wrap(tl + f'\n    type D extending {", ".join(names)};')
+    keep = [names[0], names[3]]
+    s2 = wrap(tl + f'\n    type D extending {", ".join(keep)};')
+    s3 = wrap(tl + f'\n    type D extending {", ".join(keep)} {{ property z -> str; }};')
+    out.append(([s1, s2, s3], {'family': 'drop-adjacent-bases', 'ops': [['sweep:drop-adjacent-bases']] * 3,
+                               'feat': ['inheritance:multiple'], 'len': 3}))
+    a, b = 'Ra' + str(rnd.randrange(10, 99)), 'Rb' + str(rnd.randrange(10, 99))
+    s1 = wrap(f'    type {a} {{ property x -> str; }};\n    type {b} extending {a};')
+    s2 = wrap(f'    type {a}n {{ property x -> str; }};\n    type {b} {{ link a -> {a}n | {b}; }};')
+    s3 = wrap(f'    type {a}n {{ property x -> str; }};\n    type {b} {{ link a -> {a}n | {b}; property y -> str; }};')
+    out.append(([s1, s2, s3], {'family': 'rename-and-drop-as-base', 'ops': [['sweep:rename-and-drop-as-base']] * 3,
+                               'feat': ['inheritance:single', 'type:union'], 'len': 3}))
+    return out
